@@ -4,7 +4,8 @@ use std::collections::HashMap;
 #[cfg(not(similari_verif))]
 use std::sync::RwLock;
 #[cfg(similari_verif)]
-use similari_verif_rt::sync::RwLock;
+#[allow(unused_imports)]
+use similari_verif_rt::sync::*;
 
 pub trait EpochDb {
     fn epoch_db(&self) -> &Option<RwLock<HashMap<u64, usize>>>;
